@@ -1,6 +1,6 @@
 (* Lemmas about Model/Types.v for C09 (Spec/C09.v). *)
-From Coq Require Import Ascii String List Bool Arith NArith Lia.
-From GY Require Import Base.Outcome Model.Types Spec.C09.
+From Coq Require Import Ascii String List Bool Arith NArith ZArith Lia.
+From GY Require Import Base.Outcome Model.Number Model.Range Model.Types Spec.C15 Spec.C10 Spec.C09 Proofs.RangeProofs.
 Import ListNotations.
 Local Open Scope string_scope.
 Local Open Scope list_scope.
@@ -1486,4 +1486,780 @@ Proof.
   destruct (complete_gen S st t tds k Hc fuel [] Hnd) as [y [E _]]; auto.
   - unfold count_typedefs in Hf. lia.
   - exists y. exact E.
+Qed.
+
+(* ------------------------------------------------------------------ more fuel does not change a verdict *)
+
+Lemma bind_stable2 : forall {A B} (A1 A2 : outcome A) (F1 F2 : A -> outcome B) r,
+  (forall a, A1 = a -> a <> Unmodelled -> A2 = a) ->
+  (forall v r', F1 v = r' -> r' <> Unmodelled -> F2 v = r') ->
+  obind A1 F1 = r -> r <> Unmodelled -> obind A2 F2 = r.
+Proof.
+  intros A B A1 A2 F1 F2 r HA HF H Hr. destruct A1 as [v| | |] eqn:E.
+  - rewrite (HA (Ok v) eq_refl) by discriminate. cbn [obind] in *. apply HF; assumption.
+  - rewrite (HA Err eq_refl) by discriminate. exact H.
+  - rewrite (HA Panic eq_refl) by discriminate. exact H.
+  - cbn [obind] in H. congruence.
+Qed.
+
+Lemma resolve_ty_stable : forall S rec1 rec2 marks,
+  (forall key td r, rec1 marks key td = r -> r <> Unmodelled -> rec2 marks key td = r) ->
+  forall t st r, resolve_ty S rec1 marks st t = r -> r <> Unmodelled -> resolve_ty S rec2 marks st t = r.
+Proof.
+  intros S rec1 rec2 marks Hrec. induction t as [n fd rg l ps es bs pa ib ms IH] using tref_ind'. intros st r.
+  assert (Hms : forall r', resolve_members S rec1 marks st ms = r' -> r' <> Unmodelled ->
+                           resolve_members S rec2 marks st ms = r').
+  { induction IH as [|u rest Hu _ IHr]; intros r' H Hr'.
+    - exact H.
+    - rewrite resolve_members_cons in *. revert H Hr'. apply bind_stable2.
+      + intros a Ha Hna. apply Hu; assumption.
+      + intros v r'' H Hr''. revert H Hr''. apply bind_stable2; [exact IHr | intros; assumption]. }
+  rewrite !resolve_ty_eq. cbn [t_name t_members].
+  destruct (lookup_type S st n) as [k | key td |]; [| |intros; assumption].
+  - apply bind_stable2; [intros; assumption|]. intros v r' H Hr'. revert H Hr'.
+    apply bind_stable2; [exact Hms | intros; assumption].
+  - apply bind_stable2; [intros a Ha Hna; apply Hrec; assumption|]. intros b r' H Hr'. revert H Hr'.
+    apply bind_stable2; [intros; assumption|]. intros v r'' H Hr''. revert H Hr''.
+    apply bind_stable2; [exact Hms | intros; assumption].
+Qed.
+
+Lemma resolve_td_stable : forall S f1 f2 marks key td r,
+  f1 <= f2 -> resolve_td S f1 marks key td = r -> r <> Unmodelled -> resolve_td S f2 marks key td = r.
+Proof.
+  intros S. induction f1 as [|f1 IH]; intros f2 marks key td r Hle H Hr; [cbn in H; congruence|].
+  destruct f2 as [|f2]; [lia|]. cbn [resolve_td] in *. destruct (key_mem key marks); [exact H|].
+  revert H Hr. apply bind_stable2; [|intros; assumption].
+  intros a Ha Hna. apply (resolve_ty_stable S (resolve_td S f1) (resolve_td S f2)); [|exact Ha|exact Hna].
+  intros k d r' Hr' Hn'. apply (IH f2); [lia | exact Hr' | exact Hn'].
+Qed.
+
+Theorem resolve_type_stable : forall S f1 f2 st t r,
+  f1 <= f2 -> resolve_type S f1 st t = r -> r <> Unmodelled -> resolve_type S f2 st t = r.
+Proof.
+  intros S f1 f2 st t r Hle H Hr. unfold resolve_type in *.
+  apply (resolve_ty_stable S (resolve_td S f1) (resolve_td S f2)); [|exact H|exact Hr].
+  intros k d r' Hr' Hn'. apply (resolve_td_stable S f1 f2); assumption.
+Qed.
+
+(* ------------------------------------------------------------------ resolvable, with a height *)
+
+Inductive rz (S : schema) : nat -> site -> tref -> kind -> Prop :=
+| RZ_base : forall n st t k,
+    lookup_type S st (t_name t) = LBuiltin k -> link_ok k true t ->
+    (forall u, In u (t_members t) -> exists k', rz S n st u k') ->
+    rz S (Datatypes.S n) st t k
+| RZ_step : forall n st t key td k,
+    lookup_type S st (t_name t) = LFound key td ->
+    rz S n (site_of key) (td_type td) k -> link_ok k false t ->
+    (forall u, In u (t_members t) -> exists k', rz S n st u k') ->
+    rz S (Datatypes.S n) st t k.
+
+Lemma rz_mono : forall S n st t k, rz S n st t k -> forall m, n <= m -> rz S m st t k.
+Proof.
+  intros S. induction n as [|n IH]; intros st t k H m Hle; [inversion H|].
+  destruct m as [|m]; [lia|].
+  inversion H as [? ? ? ? Hl Hok Hm | ? ? ? key td ? Hl Hsub Hok Hm]; subst.
+  - apply RZ_base; auto. intros u Hu. destruct (Hm u Hu) as [k' Hk']. exists k'. apply (IH _ _ _ Hk'). lia.
+  - eapply RZ_step; eauto. { apply (IH _ _ _ Hsub). lia. }
+    intros u Hu. destruct (Hm u Hu) as [k' Hk']. exists k'. apply (IH _ _ _ Hk'). lia.
+Qed.
+
+Lemma members_bound : forall S (st : site) (l : list tref),
+  (forall u, In u l -> exists k' n, rz S n st u k') -> exists N, forall u, In u l -> exists k', rz S N st u k'.
+Proof.
+  intros S st. induction l as [|a l IH]; intro H.
+  - exists 0. intros u [].
+  - destruct IH as [N HN]. { intros u Hu. apply H. right. exact Hu. }
+    destruct (H a (or_introl eq_refl)) as [ka [na Ha]].
+    exists (Nat.max N na). intros u [Hu | Hu].
+    + subst. exists ka. apply (rz_mono _ _ _ _ _ Ha). lia.
+    + destruct (HN u Hu) as [k' Hk']. exists k'. apply (rz_mono _ _ _ _ _ Hk'). lia.
+Qed.
+
+(* induction over a derivation of resolvable, member derivations included *)
+Fixpoint resolvable_rz S st t k (d : resolvable S st t k) {struct d} : exists n, rz S n st t k :=
+  match d with
+  | RS_base _ st t k Hl Hok Hm =>
+      match members_bound S st (t_members t)
+              (fun u Hu => match Hm u Hu with
+                           | ex_intro _ k' d' =>
+                               match resolvable_rz S st u k' d' with
+                               | ex_intro _ n r => ex_intro _ k' (ex_intro _ n r)
+                               end
+                           end) with
+      | ex_intro _ N HN => ex_intro _ (Datatypes.S N) (RZ_base S N st t k Hl Hok HN)
+      end
+  | RS_step _ st t key td k Hl Hsub Hok Hm =>
+      match resolvable_rz S _ _ _ Hsub with
+      | ex_intro _ n0 r0 =>
+          match members_bound S st (t_members t)
+                  (fun u Hu => match Hm u Hu with
+                               | ex_intro _ k' d' =>
+                                   match resolvable_rz S st u k' d' with
+                                   | ex_intro _ n r => ex_intro _ k' (ex_intro _ n r)
+                                   end
+                               end) with
+          | ex_intro _ N HN =>
+              ex_intro _ (Datatypes.S (Nat.max n0 N))
+                (RZ_step S (Nat.max n0 N) st t key td k Hl
+                   (rz_mono S n0 _ _ _ r0 _ (Nat.le_max_l n0 N)) Hok
+                   (fun u Hu => match HN u Hu with
+                                | ex_intro _ k' r => ex_intro _ k' (rz_mono S N _ _ _ r _ (Nat.le_max_r n0 N))
+                                end))
+          end
+      end
+  end.
+
+Lemma rz_resolvable : forall S n st t k, rz S n st t k -> resolvable S st t k.
+Proof.
+  intros S. induction n as [|n IH]; intros st t k H; [inversion H|].
+  inversion H as [? ? ? ? Hl Hok Hm | ? ? ? key td ? Hl Hsub Hok Hm]; subst.
+  - apply RS_base; auto. intros u Hu. destruct (Hm u Hu) as [k' Hk']. exists k'. apply IH. exact Hk'.
+  - eapply RS_step; eauto. intros u Hu. destruct (Hm u Hu) as [k' Hk']. exists k'. apply IH. exact Hk'.
+Qed.
+
+(* ------------------------------------------------------------------ the typedefs a resolution runs through *)
+
+Inductive touches (S : schema) : site -> tref -> tdkey -> Prop :=
+| T_here : forall st t key td, lookup_type S st (t_name t) = LFound key td -> touches S st t key
+| T_chain : forall st t k1 td1 key,
+    lookup_type S st (t_name t) = LFound k1 td1 -> touches S (site_of k1) (td_type td1) key -> touches S st t key
+| T_member : forall st t u key, In u (t_members t) -> touches S st u key -> touches S st t key.
+
+Lemma touches_descend : forall S st t key, touches S st t key ->
+  forall n k, rz S n st t k ->
+  exists td k' m, entry S key = Some td /\ m < n /\ rz S m (site_of key) (td_type td) k'.
+Proof.
+  intros S st t key H. induction H as [st t key td Hl | st t k1 td1 key Hl _ IH | st t u key Hin _ IH]; intros n k Hr.
+  - inversion Hr as [? ? ? ? Hl' | m ? ? key' td' ? Hl' Hsub]; subst; rewrite Hl in Hl'; [discriminate|].
+    inversion Hl'; subst key' td'. exists td, k, m. split; [eapply lookup_entry; exact Hl|]. split; [lia | exact Hsub].
+  - inversion Hr as [? ? ? ? Hl' | m ? ? key' td' ? Hl' Hsub]; subst; rewrite Hl in Hl'; [discriminate|].
+    inversion Hl'; subst key' td'. destruct (IH m k Hsub) as [td [k' [m' [E [Hlt Hr']]]]].
+    exists td, k', m'. split; [exact E|]. split; [lia | exact Hr'].
+  - assert (Hm : exists m k', n = Datatypes.S m /\ rz S m st u k').
+    { inversion Hr as [m ? ? ? _ _ Hm | m ? ? ? ? ? _ _ _ Hm]; subst; destruct (Hm u Hin) as [k' Hk']; eauto. }
+    destruct Hm as [m [k0 [En Hu]]]. subst n. destruct (IH m k0 Hu) as [td [k' [m' [E [Hlt Hr']]]]].
+    exists td, k', m'. split; [exact E|]. split; [lia | exact Hr'].
+Qed.
+
+(* the resolution of a resolvable typedef's type never comes back to the typedef *)
+Lemma rz_acyclic : forall S n key td k,
+  entry S key = Some td -> rz S n (site_of key) (td_type td) k -> ~ touches S (site_of key) (td_type td) key.
+Proof.
+  intros S n. induction n as [n IH] using lt_wf_ind. intros key td k E Hr Ht.
+  destruct (touches_descend S _ _ key Ht n k Hr) as [td' [k' [m [E' [Hlt Hr']]]]].
+  assert (td' = td) by congruence. subst td'. exact (IH m Hlt key td k' E Hr' Ht).
+Qed.
+
+Lemma members_all_ok : forall S rec_td marks st l,
+  (forall u, In u l -> exists yu, resolve_ty S rec_td marks st u = Ok yu) ->
+  exists ms, resolve_members S rec_td marks st l = Ok ms.
+Proof.
+  intros S rec_td marks st. induction l as [|u r IH]; intro H.
+  - exists []. reflexivity.
+  - destruct (H u (or_introl eq_refl)) as [yu Hu]. destruct IH as [ms Hms]. { intros v Hv. apply H. right. exact Hv. }
+    exists (yu :: ms). rewrite resolve_members_cons, Hu. cbn [obind]. rewrite Hms. reflexivity.
+Qed.
+
+Lemma resolve_td_succ : forall S f marks key td,
+  resolve_td S (Datatypes.S f) marks key td =
+  if key_mem key marks then Err
+  else (y <- resolve_ty S (resolve_td S f) (key :: marks) (site_of key) (td_type td) ;; Ok (overlay td y)).
+Proof. reflexivity. Qed.
+
+Lemma complete_rz : forall S n st t k, rz S n st t k ->
+  forall f marks, n <= f -> (forall key, touches S st t key -> ~ In key marks) ->
+  exists y, resolve_ty S (resolve_td S f) marks st t = Ok y /\ y_kind y = k /\
+            (kind_eqb k Ydecimal64 = true -> y_fd y <> 0%N).
+Proof.
+  intros S. induction n as [|n IH]; intros st t k H f marks Hle Hdis; [inversion H|].
+  assert (Hmem : forall m0 (Hm : forall u, In u (t_members t) -> exists k', rz S n st u k'), m0 = t_members t ->
+                 exists ms, resolve_members S (resolve_td S f) marks st m0 = Ok ms).
+  { intros m0 Hm ->. apply members_all_ok. intros u Hu. destruct (Hm u Hu) as [k' Hk'].
+    destruct (IH st u k' Hk' f marks) as [yu [E _]]; [lia| |eauto].
+    intros key Hk. apply Hdis. eapply T_member; eauto. }
+  rewrite resolve_ty_eq.
+  inversion H as [? ? ? ? Hl Hok Hm | ? ? ? key td ? Hl Hsub Hok Hm]; subst; rewrite Hl.
+  - destruct (use_local_base_ok k t (proj1 (lookup_builtin S st (t_name t) k) Hl) Hok) as [y1 [E [K F]]].
+    destruct (Hmem _ Hm eq_refl) as [ms Ems]. rewrite E. cbn [obind]. rewrite Ems. cbn [obind].
+    eexists. split; [reflexivity|]. cbn [set_union y_kind y_fd]. auto.
+  - destruct f as [|f]; [lia|]. rewrite resolve_td_succ.
+    assert (Em : key_mem key marks = false).
+    { destruct (key_mem key marks) eqn:E; [|reflexivity]. apply key_mem_spec in E.
+      exfalso. apply (Hdis key); [eapply T_here; exact Hl | exact E]. }
+    rewrite Em.
+    destruct (IH _ _ _ Hsub f (key :: marks)) as [y0 [E0 [K0 F0]]]; [lia| |].
+    { intros k' Hk' [Hc | Hc].
+      - subst k'. exact (rz_acyclic S n key td k (lookup_entry S st (t_name t) key td Hl) Hsub Hk').
+      - apply (Hdis k'); [eapply T_chain; eauto | exact Hc]. }
+    rewrite E0. cbn [obind].
+    assert (Kb : y_kind (overlay td y0) = k /\ y_fd (overlay td y0) = y_fd y0).
+    { unfold overlay. destruct (td_units td), (td_default td); cbn; auto. }
+    destruct Kb as [Kb Fb].
+    destruct (use_local_derived_ok k t (overlay td y0) Hok Kb) as [y1 [E [K F]]]. { rewrite Fb. exact F0. }
+    assert (Hmem' : exists ms, resolve_members S (resolve_td S (Datatypes.S f)) marks st (t_members t) = Ok ms).
+    { apply members_all_ok. intros u Hu. destruct (Hm u Hu) as [k' Hk'].
+      destruct (IH st u k' Hk' (Datatypes.S f) marks) as [yu [Eu _]]; [lia| |eauto].
+      intros key' Hk2. apply Hdis. eapply T_member; eauto. }
+    destruct Hmem' as [ms Ems]. rewrite E. cbn [obind].
+    rewrite Ems. cbn [obind].
+    eexists. split; [reflexivity|]. cbn [set_union y_kind y_fd]. split; [exact K|]. rewrite F, Fb. exact F0.
+Qed.
+
+(* (1) the converse of T2, in full: a resolvable reference resolves, to a type of its base kind *)
+Theorem resolve_complete : forall S fuel st t k,
+  count_typedefs S < fuel -> resolvable S st t k ->
+  exists y, resolve_type S fuel st t = Ok y /\ y_kind y = k.
+Proof.
+  intros S fuel st t k Hf Hr. destruct (resolvable_rz S st t k Hr) as [n Hn].
+  destruct (complete_rz S n st t k Hn (Nat.max n fuel) []) as [y [E [K _]]]; [lia | intros key _ [] |].
+  exists y. split; [|exact K].
+  pose proof (resolve_total S fuel st t Hf) as [_ Hnu].
+  pose proof (resolve_type_stable S fuel (Nat.max n fuel) st t _ (Nat.le_max_r n fuel) eq_refl Hnu) as Hs.
+  unfold resolve_type in Hs at 1. rewrite E in Hs. symmetry. exact Hs.
+Qed.
+
+(* ------------------------------------------------------------------ a resolved reference is resolvable *)
+
+Lemma phase_enum_nodup : forall t y y', phase_enum t y = Ok y' -> nodup_names (t_enums t) = true.
+Proof.
+  intros t y y'. unfold phase_enum. destruct (t_enums t) as [|e es]; [reflexivity|].
+  destruct (nodup_names (e :: es)); [reflexivity | discriminate].
+Qed.
+Lemma phase_bit_nodup : forall t y y', phase_bit t y = Ok y' -> nodup_names (t_bits t) = true.
+Proof.
+  intros t y y'. unfold phase_bit. destruct (t_bits t) as [|e es]; [reflexivity|].
+  destruct (nodup_names (e :: es)); [reflexivity | discriminate].
+Qed.
+
+Lemma use_local_ok_base : forall k t y,
+  base_kind (t_name t) = Some k -> use_local t true (base_type k) = Ok y -> link_ok k true t.
+Proof.
+  intros k t y Hb H. apply base_kind_name in Hb. rewrite use_local_eq in H.
+  apply bind_ok in H. destruct H as [y1 [H1 H]]. apply bind_ok in H. destruct H as [y2 [H2 H]].
+  apply bind_ok in H. destruct H as [y3 [H3 _]].
+  apply phase_enum_nodup in H2. apply phase_bit_nodup in H3.
+  set (b := match t_path t with Some p => set_path (base_type k) p | None => base_type k end) in H1.
+  assert (Hbk : y_kind b = k) by (unfold b; destruct (t_path t); reflexivity).
+  assert (Hbf : y_fd b = 0%N) by (unfold b; destruct (t_path t); reflexivity).
+  clearbody b.
+  unfold phase_fd in H1. cbv zeta in H1. rewrite Hbk, Hbf in H1. cbn [N.eqb negb orb andb] in H1.
+  rewrite !andb_false_r in H1. cbn [andb orb] in H1.
+  unfold link_ok. cbn [andb]. split; [|split; [|split; assumption]].
+  - destruct (kind_eqb k Ydecimal64) eqn:Ed.
+    + apply kind_eqb_eq in Ed. subst k. rewrite Hb in H1. cbn [kind_name] in H1. rewrite String.eqb_refl in H1.
+      cbn [andb orb] in H1. destruct (t_fd t) as [i|]; [|discriminate].
+      destruct (N.leb 1 i) eqn:L1; destruct (N.leb i 18) eqn:L2; cbn [andb] in H1; try discriminate.
+      exists i. split; [reflexivity|]. apply N.leb_le in L1, L2. lia.
+    + cbn [andb] in H1. destruct (t_fd t); [discriminate | reflexivity].
+  - intros _ Hk Hn. rewrite Hk in H1. cbn [kind_eqb kind_name String.eqb Ascii.eqb Bool.eqb andb] in H1.
+    destruct (t_fd t); [discriminate|]. rewrite Hn in H1. discriminate.
+Qed.
+
+Lemma use_local_ok_derived : forall t b y,
+  String.eqb (t_name t) "decimal64" = false -> use_local t false b = Ok y -> link_ok (y_kind b) false t.
+Proof.
+  intros t b y Hn H. rewrite use_local_eq in H.
+  apply bind_ok in H. destruct H as [y1 [H1 H]]. apply bind_ok in H. destruct H as [y2 [H2 H]].
+  apply bind_ok in H. destruct H as [y3 [H3 _]].
+  apply phase_enum_nodup in H2. apply phase_bit_nodup in H3.
+  unfold link_ok. cbn [andb]. split; [|split; [intro Hx; discriminate Hx | split; assumption]].
+  unfold phase_fd in H1. cbv zeta in H1. rewrite Hn in H1. cbn [orb] in H1.
+  destruct (t_fd t) as [i|]; [|reflexivity]. exfalso.
+  destruct (kind_eqb _ Ydecimal64); destruct (N.eqb _ 0); cbn [andb negb] in H1; discriminate.
+Qed.
+
+Lemma lookup_found_not_builtin : forall S st tn key td,
+  lookup_type S st tn = LFound key td -> base_kind tn = None.
+Proof.
+  intros S st tn key td H. destruct (base_kind tn) as [k|] eqn:E; [|reflexivity].
+  apply (lookup_builtin S st) in E. congruence.
+Qed.
+
+Lemma not_builtin_not_decimal : forall tn, base_kind tn = None -> String.eqb tn "decimal64" = false.
+Proof.
+  intros tn H. destruct (String.eqb tn "decimal64") eqn:E; [|reflexivity].
+  apply String.eqb_eq in E. subst. discriminate H.
+Qed.
+
+Lemma ok_resolvable_ty : forall S rec_td marks,
+  (forall key td b, rec_td marks key td = Ok b -> resolvable S (site_of key) (td_type td) (y_kind b)) ->
+  forall t st y, resolve_ty S rec_td marks st t = Ok y -> resolvable S st t (y_kind y).
+Proof.
+  intros S rec_td marks Hrec. induction t as [n fd rg l ps es bs pa ib ms IH] using tref_ind'. intros st y H.
+  assert (Hms : forall ys, resolve_members S rec_td marks st ms = Ok ys ->
+                           forall u, In u ms -> exists k', resolvable S st u k').
+  { intros ys Hys u Hu. apply resolve_members_ok in Hys. rewrite Forall_forall in IH.
+    clear -Hys Hu IH. induction Hys as [|v yv r ys' Hv _ IHr]; [destruct Hu|].
+    destruct Hu as [Hu | Hu].
+    - subst v. exists (y_kind yv). apply (IH u); [left; reflexivity | exact Hv].
+    - apply IHr; [|exact Hu]. intros x Hx. apply IH. right. exact Hx. }
+  rewrite resolve_ty_eq in H. cbn [t_name t_members] in H.
+  destruct (lookup_type S st n) as [k | key td |] eqn:El; [| |discriminate].
+  - apply bind_ok in H. destruct H as [y1 [H1 H]]. apply bind_ok in H. destruct H as [ys [H2 H]].
+    inversion H; subst y. cbn [set_union y_kind].
+    pose proof (use_local_pure _ _ _ _ H1) as Hp. subst y1.
+    destruct (use_pure_fields (TRef n fd rg l ps es bs pa ib ms) true (base_type k)) as [_ [K _]]. rewrite K.
+    cbn [base_type y_kind]. apply RS_base; cbn [t_name t_members].
+    + exact El.
+    + eapply use_local_ok_base; [|exact H1]. cbn [t_name]. apply (lookup_builtin S st). exact El.
+    + exact (Hms ys H2).
+  - apply bind_ok in H. destruct H as [b [H0 H]]. apply bind_ok in H. destruct H as [y1 [H1 H]].
+    apply bind_ok in H. destruct H as [ys [H2 H]]. inversion H; subst y. cbn [set_union y_kind].
+    pose proof (use_local_pure _ _ _ _ H1) as Hp. subst y1.
+    destruct (use_pure_fields (TRef n fd rg l ps es bs pa ib ms) false b) as [_ [K _]]. rewrite K.
+    eapply RS_step; cbn [t_name t_members].
+    + exact El.
+    + apply Hrec. exact H0.
+    + eapply use_local_ok_derived; [|exact H1]. cbn [t_name].
+      apply not_builtin_not_decimal. eapply lookup_found_not_builtin. exact El.
+    + exact (Hms ys H2).
+Qed.
+
+Lemma ok_resolvable_td : forall S f marks key td b,
+  resolve_td S f marks key td = Ok b -> resolvable S (site_of key) (td_type td) (y_kind b).
+Proof.
+  intros S. induction f as [|f IH]; intros marks key td b H; [discriminate|].
+  rewrite resolve_td_succ in H. destruct (key_mem key marks); [discriminate|].
+  apply bind_ok in H. destruct H as [y0 [H0 H]]. inversion H; subst b.
+  assert (K : y_kind (overlay td y0) = y_kind y0).
+  { unfold overlay. destruct (td_units td), (td_default td); reflexivity. }
+  rewrite K. apply (ok_resolvable_ty S (resolve_td S f) (key :: marks)); [|exact H0].
+  intros k d b' Hb'. apply (IH (key :: marks)). exact Hb'.
+Qed.
+
+Theorem resolve_ok_resolvable : forall S fuel st t y,
+  resolve_type S fuel st t = Ok y -> resolvable S st t (y_kind y).
+Proof.
+  intros S fuel st t y H. unfold resolve_type in H.
+  apply (ok_resolvable_ty S (resolve_td S fuel) []); [|exact H].
+  intros key td b Hb. eapply ok_resolvable_td. exact Hb.
+Qed.
+
+(* (2) success and error, exactly *)
+Theorem resolve_ok_iff : forall S fuel st t,
+  count_typedefs S < fuel ->
+  ((exists y, resolve_type S fuel st t = Ok y) <-> exists k, resolvable S st t k).
+Proof.
+  intros S fuel st t Hf. split.
+  - intros [y Hy]. exists (y_kind y). eapply resolve_ok_resolvable. exact Hy.
+  - intros [k Hk]. destruct (resolve_complete S fuel st t k Hf Hk) as [y [Hy _]]. eauto.
+Qed.
+
+Theorem resolve_error_iff : forall S fuel st t,
+  count_typedefs S < fuel ->
+  (resolve_type S fuel st t = Err <-> ~ exists k, resolvable S st t k).
+Proof.
+  intros S fuel st t Hf. split.
+  - intros He Hr. apply (resolve_ok_iff S fuel st t Hf) in Hr. destruct Hr as [y Hy]. congruence.
+  - intro Hn. destruct (outcome_cases _ (resolve_total S fuel st t Hf)) as [[y Hy] | He]; [|exact He].
+    exfalso. apply Hn. exists (y_kind y). eapply resolve_ok_resolvable. exact Hy.
+Qed.
+
+(* resolvable, read along the whole chain *)
+Theorem resolvable_chain : forall S st t k,
+  resolvable S st t k <->
+  exists tds, lchain S st t tds k /\ links_ok k (map snd (links st t tds)) /\
+              forall l, In l (links st t tds) -> forall u, In u (t_members (snd l)) ->
+                        exists k', resolvable S (fst l) u k'.
+Proof.
+  intros S st t k. split.
+  - intro H. induction H as [st t k Hl Hok Hm | st t key td k Hl Hsub IH Hok Hm].
+    + exists []. split; [apply LChBase; exact Hl|]. split; [exact Hok|].
+      intros l [Hl' | []] u Hu. subst l. apply Hm. exact Hu.
+    + destruct IH as [tds [C1 [C2 C3]]]. exists ((key, td) :: tds). split; [eapply LChStep; eauto|]. split.
+      * rewrite links_cons. unfold links in *. cbn [map snd] in *. split; assumption.
+      * rewrite links_cons. intros l [Hl' | Hl'] u Hu; [subst l; apply Hm; exact Hu | eapply C3; eauto].
+  - intros [tds [C1 [C2 C3]]]. induction C1 as [st t k Hl | st t key td rest k Hl Hr IH].
+    + apply RS_base; [exact Hl | exact C2 |]. intros u Hu. apply (C3 (st, t)); [left; reflexivity | exact Hu].
+    + rewrite links_cons in C2, C3.
+      assert (C2' : link_ok k false t /\ links_ok k (map snd (links (site_of key) (td_type td) rest))).
+      { unfold links in *. cbn [map snd] in *. exact C2. }
+      destruct C2' as [Ok1 Ok2]. eapply RS_step; [exact Hl | | exact Ok1 |].
+      * apply IH; [exact Ok2|]. intros l Hl' u Hu. apply (C3 l); [right; exact Hl' | exact Hu].
+      * intros u Hu. apply (C3 (st, t)); [left; reflexivity | exact Hu].
+Qed.
+
+(* ------------------------------------------------------------------ the causes of an error *)
+
+Fixpoint walk (S : schema) (n : nat) (st : site) (t : tref) : option (list (tdkey * typedef) * kind) :=
+  match n with
+  | O => None
+  | Datatypes.S n' =>
+      match lookup_type S st (t_name t) with
+      | LBuiltin k => Some ([], k)
+      | LFound key td =>
+          match walk S n' (site_of key) (td_type td) with
+          | Some (tds, k) => Some ((key, td) :: tds, k)
+          | None => None
+          end
+      | LNone => None
+      end
+  end.
+
+Lemma walk_sound : forall S n st t tds k, walk S n st t = Some (tds, k) -> lchain S st t tds k.
+Proof.
+  intros S. induction n as [|n IH]; intros st t tds k H; [discriminate|]. cbn [walk] in H.
+  destruct (lookup_type S st (t_name t)) as [k0 | key td |] eqn:El; [| |discriminate].
+  - inversion H; subst. apply LChBase. exact El.
+  - destruct (walk S n (site_of key) (td_type td)) as [[tds' k']|] eqn:Ew; [|discriminate].
+    inversion H; subst. eapply LChStep; [exact El | apply IH; exact Ew].
+Qed.
+
+Lemma walk_complete : forall S st t tds k, lchain S st t tds k ->
+  forall n, length tds < n -> walk S n st t = Some (tds, k).
+Proof.
+  intros S st t tds k H. induction H as [st t k Hl | st t key td rest k Hl _ IH]; intros n Hn;
+    (destruct n as [|n]; [lia|]); cbn [walk]; rewrite Hl; [reflexivity|].
+  rewrite (IH n); [reflexivity | cbn [length] in Hn; lia].
+Qed.
+
+Lemma lchain_length : forall S st t tds k, lchain S st t tds k -> length tds <= count_typedefs S.
+Proof.
+  intros S st t tds k H.
+  pose proof (NoDup_incl_length (lchain_nodup S st t tds k H) (lchain_keys_valid S st t tds k H)) as Hl.
+  rewrite map_length in Hl. exact Hl.
+Qed.
+
+Lemma lchain_dec : forall S st t,
+  (exists tds k, lchain S st t tds k) \/ (forall tds k, ~ lchain S st t tds k).
+Proof.
+  intros S st t. destruct (walk S (Datatypes.S (count_typedefs S)) st t) as [[tds k]|] eqn:E.
+  - left. exists tds, k. eapply walk_sound. exact E.
+  - right. intros tds k H. pose proof (lchain_length S st t tds k H) as Hl.
+    rewrite (walk_complete S st t tds k H) in E; [discriminate | lia].
+Qed.
+
+Lemma link_ok_dec : forall k b t, link_ok k b t \/ ~ link_ok k b t.
+Proof.
+  intros k b t. unfold link_ok.
+  assert (D1 : (if b && kind_eqb k Ydecimal64 then exists i, t_fd t = Some i /\ (1 <= i <= 18)%N else t_fd t = None)
+               \/ ~ (if b && kind_eqb k Ydecimal64 then exists i, t_fd t = Some i /\ (1 <= i <= 18)%N
+                     else t_fd t = None)).
+  { destruct (b && kind_eqb k Ydecimal64).
+    - destruct (t_fd t) as [i|]; [|right; intros [i [H _]]; discriminate].
+      destruct (N.leb 1 i) eqn:L1; [destruct (N.leb i 18) eqn:L2|].
+      + left. exists i. apply N.leb_le in L1, L2. split; [reflexivity | lia].
+      + right. intros [j [Hj [_ H2]]]. inversion Hj; subst. apply N.leb_gt in L2. lia.
+      + right. intros [j [Hj [H1 _]]]. inversion Hj; subst. apply N.leb_gt in L1. lia.
+    - destruct (t_fd t); [right; discriminate | left; reflexivity]. }
+  assert (D2 : (b = true -> k = Yidentityref -> t_idbase t <> None)
+               \/ ~ (b = true -> k = Yidentityref -> t_idbase t <> None)).
+  { destruct b; [|left; discriminate]. destruct (kind_eqb k Yidentityref) eqn:Ek.
+    - apply kind_eqb_eq in Ek. destruct (t_idbase t); [left; discriminate | right; intro H; apply (H eq_refl Ek); reflexivity].
+    - left. intros _ Hk. subst k. rewrite kind_eqb_refl in Ek. discriminate. }
+  destruct D1 as [D1 | D1]; [|right; tauto]. destruct D2 as [D2 | D2]; [|right; tauto].
+  destruct (nodup_names (t_enums t)); [|right; intros [_ [_ [H _]]]; discriminate].
+  destruct (nodup_names (t_bits t)); [|right; intros [_ [_ [_ H]]]; discriminate].
+  left. auto.
+Qed.
+
+Lemma links_ok_dec : forall k l, links_ok k l \/ ~ links_ok k l.
+Proof.
+  intros k. induction l as [|t r IH]; [left; exact I|].
+  destruct r as [|t' r'].
+  - apply link_ok_dec.
+  - change (links_ok k (t :: t' :: r')) with (link_ok k false t /\ links_ok k (t' :: r')).
+    destruct (link_ok_dec k false t); destruct IH; tauto.
+Qed.
+
+Lemma find_err : forall S fuel (pairs : list (site * tref)),
+  count_typedefs S < fuel ->
+  (exists p, In p pairs /\ resolve_type S fuel (fst p) (snd p) = Err) \/
+  (forall p, In p pairs -> exists y, resolve_type S fuel (fst p) (snd p) = Ok y).
+Proof.
+  intros S fuel pairs Hf. induction pairs as [|p r IH]; [right; intros p []|].
+  destruct (outcome_cases _ (resolve_total S fuel (fst p) (snd p) Hf)) as [[y Hy] | He].
+  - destruct IH as [[q [Hq He]] | Hall].
+    + left. exists q. split; [right; exact Hq | exact He].
+    + right. intros q [Hq | Hq]; [subst; eauto | apply Hall; exact Hq].
+  - left. exists p. split; [left; reflexivity | exact He].
+Qed.
+
+(* (2) in the form of causes: no (finite) chain of bound typedefs down to a built-in type -- an unbound name somewhere
+   on the way or a cycle --, or a type statement of the chain that fails the local checks, or an erroneous union
+   member of a type statement of the chain *)
+Theorem resolve_error_causes : forall S fuel st t,
+  count_typedefs S < fuel ->
+  (resolve_type S fuel st t = Err <->
+   (forall tds k, ~ lchain S st t tds k) \/
+   exists tds k, lchain S st t tds k /\
+     (~ links_ok k (map snd (links st t tds)) \/
+      exists l u, In l (links st t tds) /\ In u (t_members (snd l)) /\ resolve_type S fuel (fst l) u = Err)).
+Proof.
+  intros S fuel st t Hf. split.
+  - intro He. destruct (lchain_dec S st t) as [[tds [k Hc]] | Hn]; [|left; exact Hn].
+    right. exists tds, k. split; [exact Hc|].
+    destruct (links_ok_dec k (map snd (links st t tds))) as [Hok | Hnok]; [|left; exact Hnok].
+    right.
+    set (pairs := flat_map (fun l : site * tref => map (fun u => (fst l, u)) (t_members (snd l))) (links st t tds)).
+    destruct (find_err S fuel pairs Hf) as [[p [Hp Hpe]] | Hall].
+    + unfold pairs in Hp. apply in_flat_map in Hp. destruct Hp as [l [Hl Hp]]. apply in_map_iff in Hp.
+      destruct Hp as [u [Hu Hin]]. subst p. cbn [fst snd] in Hpe. exists l, u. auto.
+    + exfalso.
+      assert (Hr : resolvable S st t k).
+      { apply resolvable_chain. exists tds. split; [exact Hc|]. split; [exact Hok|].
+        intros l Hl u Hu. destruct (Hall (fst l, u)) as [y Hy].
+        - unfold pairs. apply in_flat_map. exists l. split; [exact Hl|]. apply in_map_iff. exists u. auto.
+        - exists (y_kind y). eapply resolve_ok_resolvable. exact Hy. }
+      destruct (resolve_complete S fuel st t k Hf Hr) as [y [Hy _]]. congruence.
+  - intros [Hn | [tds [k [Hc Hcause]]]]; [apply resolve_no_chain; assumption|].
+    destruct (outcome_cases _ (resolve_total S fuel st t Hf)) as [[y Hy] | He]; [|exact He].
+    exfalso. pose proof (resolve_ok_resolvable S fuel st t y Hy) as Hr.
+    apply resolvable_chain in Hr. destruct Hr as [tds' [C1 [C2 C3]]].
+    destruct (lchain_fun S st t tds k Hc tds' (y_kind y) C1) as [Et Ek]. subst tds'. rewrite <- Ek in *.
+    destruct Hcause as [Hnok | [l [u [Hl [Hu He]]]]]; [exact (Hnok C2)|].
+    destruct (C3 l Hl u Hu) as [k' Hk'].
+    destruct (resolve_complete S fuel (fst l) u k' Hf Hk') as [yu [Hyu _]]. congruence.
+Qed.
+
+(* why there is no chain: following the lookups from the reference one meets a name that binds nothing, or a typedef
+   that is based on itself *)
+Theorem no_chain_causes_sound : forall S st t,
+  (lookup_type S st (t_name t) = LNone \/
+   (exists key td, reaches S st t key td /\ lookup_type S (site_of key) (t_name (td_type td)) = LNone) \/
+   (exists key td, reaches S st t key td /\ cyclic S key td)) ->
+  forall tds k, ~ lchain S st t tds k.
+Proof.
+  intros S st t [H | [[key [td [Hr Hn]]] | [key [td [Hr Hc]]]]] tds k Hl.
+  - inversion Hl; congruence.
+  - destruct (reaches_shorter S st t key td Hr tds k Hl) as [tds' [H1 _]]. inversion H1; congruence.
+  - destruct (reaches_shorter S st t key td Hr tds k Hl) as [tds' [H1 _]].
+    exact (cyclic_no_chain S key td Hc tds' k H1).
+Qed.
+
+(* and conversely: without a chain, following the lookups ends at an unbound name or runs into a cycle *)
+Inductive wres :=
+| WChain (tds : list (tdkey * typedef)) (k : kind)
+| WStuck
+| WLong (p : list (tdkey * typedef)).
+
+Fixpoint walkc (S : schema) (n : nat) (st : site) (t : tref) : wres :=
+  match n with
+  | O => WLong []
+  | Datatypes.S n' =>
+      match lookup_type S st (t_name t) with
+      | LBuiltin k => WChain [] k
+      | LNone => WStuck
+      | LFound key td =>
+          match walkc S n' (site_of key) (td_type td) with
+          | WChain tds k => WChain ((key, td) :: tds) k
+          | WStuck => WStuck
+          | WLong p => WLong ((key, td) :: p)
+          end
+      end
+  end.
+
+Inductive lpath (S : schema) : site -> tref -> list (tdkey * typedef) -> Prop :=
+| LP_nil : forall st t, lpath S st t []
+| LP_cons : forall st t key td rest,
+    lookup_type S st (t_name t) = LFound key td -> lpath S (site_of key) (td_type td) rest ->
+    lpath S st t ((key, td) :: rest).
+
+Lemma walkc_chain : forall S n st t tds k, walkc S n st t = WChain tds k -> lchain S st t tds k.
+Proof.
+  intros S. induction n as [|n IH]; intros st t tds k H; [discriminate|]. cbn [walkc] in H.
+  destruct (lookup_type S st (t_name t)) as [k0 | key td |] eqn:El; [| |discriminate].
+  - inversion H; subst. apply LChBase. exact El.
+  - destruct (walkc S n (site_of key) (td_type td)) as [tds' k' | | p] eqn:Ew; try discriminate.
+    inversion H; subst. eapply LChStep; [exact El | apply IH; exact Ew].
+Qed.
+
+Lemma walkc_stuck : forall S n st t, walkc S n st t = WStuck ->
+  lookup_type S st (t_name t) = LNone \/
+  exists key td, reaches S st t key td /\ lookup_type S (site_of key) (t_name (td_type td)) = LNone.
+Proof.
+  intros S. induction n as [|n IH]; intros st t H; [discriminate|]. cbn [walkc] in H.
+  destruct (lookup_type S st (t_name t)) as [k0 | key td |] eqn:El; [discriminate| |left; reflexivity].
+  destruct (walkc S n (site_of key) (td_type td)) as [tds' k' | | p] eqn:Ew; try discriminate.
+  right. destruct (IH _ _ Ew) as [Hn | [key' [td' [Hr Hn]]]].
+  - exists key, td. split; [apply R_one; exact El | exact Hn].
+  - exists key', td'. split; [eapply R_more; eauto | exact Hn].
+Qed.
+
+Lemma walkc_long : forall S n st t p, walkc S n st t = WLong p -> lpath S st t p /\ length p = n.
+Proof.
+  intros S. induction n as [|n IH]; intros st t p H.
+  - inversion H. split; [constructor | reflexivity].
+  - cbn [walkc] in H. destruct (lookup_type S st (t_name t)) as [k0 | key td |] eqn:El; try discriminate.
+    destruct (walkc S n (site_of key) (td_type td)) as [tds' k' | | p'] eqn:Ew; try discriminate.
+    inversion H; subst. destruct (IH _ _ _ Ew) as [I1 I2]. split; [constructor; assumption | cbn [length]; lia].
+Qed.
+
+Lemma lpath_split : forall S p1 st t key td p2,
+  lpath S st t (p1 ++ (key, td) :: p2) -> reaches S st t key td /\ lpath S (site_of key) (td_type td) p2.
+Proof.
+  intros S. induction p1 as [|[k1 d1] p1 IH]; intros st t key td p2 H; cbn [app] in H;
+    inversion H as [|? ? ? ? ? Hl Hr]; subst.
+  - split; [apply R_one; exact Hl | exact Hr].
+  - destruct (IH _ _ _ _ _ Hr) as [I1 I2]. split; [eapply R_more; eauto | exact I2].
+Qed.
+
+Lemma lpath_keys_valid : forall S st t p, lpath S st t p -> incl (map fst p) (all_keys S).
+Proof.
+  intros S st t p H. induction H as [|st t key td rest Hl _ IH]; [intros x []|].
+  intros x [Hx | Hx]; [subst; eapply lookup_valid; exact Hl | apply IH; exact Hx].
+Qed.
+
+Definition tdkey_eq_dec : forall a b : tdkey, {a = b} + {a <> b}.
+Proof. repeat decide equality. Defined.
+
+Lemma dup_or_nodup : forall l : list tdkey,
+  NoDup l \/ exists x l1 l2 l3, l = l1 ++ x :: l2 ++ x :: l3.
+Proof.
+  induction l as [|a r IH]; [left; constructor|].
+  destruct (in_dec tdkey_eq_dec a r) as [Hin | Hnin].
+  - right. apply in_split in Hin. destruct Hin as [r1 [r2 Hr]]. exists a, [], r1, r2. subst r. reflexivity.
+  - destruct IH as [Hnd | [x [l1 [l2 [l3 Hl]]]]].
+    + left. constructor; assumption.
+    + right. exists x, (a :: l1), l2, l3. subst r. reflexivity.
+Qed.
+
+Lemma map_fst_split : forall (p : list (tdkey * typedef)) l1 x r,
+  map fst p = l1 ++ x :: r -> exists p1 td p2, p = p1 ++ (x, td) :: p2 /\ map fst p1 = l1 /\ map fst p2 = r.
+Proof.
+  induction p as [|[k d] p IH]; intros l1 x r H.
+  - destruct l1; discriminate.
+  - destruct l1 as [|a l1]; cbn [map fst app] in H; inversion H; subst.
+    + exists [], d, p. auto.
+    + destruct (IH l1 x r H2) as [p1 [td [p2 [E1 [E2 E3]]]]]. exists ((a, d) :: p1), td, p2.
+      subst p. cbn [map fst app]. rewrite E2. auto.
+Qed.
+
+Theorem no_chain_causes : forall S st t,
+  (forall tds k, ~ lchain S st t tds k) <->
+  (lookup_type S st (t_name t) = LNone \/
+   (exists key td, reaches S st t key td /\ lookup_type S (site_of key) (t_name (td_type td)) = LNone) \/
+   (exists key td, reaches S st t key td /\ cyclic S key td)).
+Proof.
+  intros S st t. split; [|apply no_chain_causes_sound].
+  intro Hn. destruct (walkc S (Datatypes.S (count_typedefs S)) st t) as [tds k | | p] eqn:Ew.
+  - exfalso. exact (Hn tds k (walkc_chain S _ st t tds k Ew)).
+  - destruct (walkc_stuck S _ st t Ew) as [H | H]; [left; exact H | right; left; exact H].
+  - right. right. destruct (walkc_long S _ st t p Ew) as [Hp Hlen].
+    destruct (dup_or_nodup (map fst p)) as [Hnd | [x [l1 [l2 [l3 Hd]]]]].
+    + exfalso. pose proof (NoDup_incl_length Hnd (lpath_keys_valid S st t p Hp)) as Hl.
+      rewrite map_length in Hl. unfold count_typedefs in Hlen. lia.
+    + destruct (map_fst_split p l1 x (l2 ++ x :: l3) Hd) as [p1 [td [p2 [E1 [_ E3]]]]].
+      destruct (map_fst_split p2 l2 x l3 E3) as [q1 [td' [q2 [F1 _]]]].
+      subst p. destruct (lpath_split S p1 st t x td p2 Hp) as [R1 P2]. subst p2.
+      destruct (lpath_split S q1 _ _ x td' q2 P2) as [R2 _].
+      assert (td' = td).
+      { pose proof (reaches_entry S _ _ x td R1). pose proof (reaches_entry S _ _ x td' R2). congruence. }
+      subst td'. exists x, td. split; [exact R1 | exact R2].
+Qed.
+
+(* ------------------------------------------------------------------ resolved ranges of integer types: C09 x C10 *)
+
+Lemma chain_of_sound : forall S n st t tds k, chain_of S n st t = Some (tds, k) -> lchain S st t tds k.
+Proof.
+  intros S. induction n as [|n IH]; intros st t tds k H; [discriminate|]. cbn [chain_of] in H.
+  destruct (lookup_type S st (t_name t)) as [k0 | key td |] eqn:El; [| |discriminate].
+  - inversion H; subst. apply LChBase. exact El.
+  - destruct (chain_of S n (site_of key) (td_type td)) as [[tds' k']|] eqn:Ew; [|discriminate].
+    inversion H; subst. eapply LChStep; [exact El | apply IH; exact Ew].
+Qed.
+
+Lemma chain_of_complete : forall S st t tds k, lchain S st t tds k ->
+  chain_of S (resolve_fuel S) st t = Some (tds, k).
+Proof.
+  intros S st t tds k H. pose proof (lchain_length S st t tds k H) as Hlen.
+  assert (G : forall n, length tds < n -> chain_of S n st t = Some (tds, k)).
+  { clear Hlen. induction H as [st t k Hl | st t key td rest k Hl _ IH]; intros n Hn;
+      (destruct n as [|n]; [lia|]); cbn [chain_of]; rewrite Hl; [reflexivity|].
+    rewrite (IH n); [reflexivity | cbn [length] in Hn; lia]. }
+  apply G. unfold resolve_fuel. lia.
+Qed.
+
+Lemma base_range_ok : forall k, okRs 0 (base_range k) /\ WF (base_range k).
+Proof.
+  destruct k; unfold base_range, int_bounds; (split; [repeat constructor | cbn [WF]; auto]);
+    unfold okR, okN, dom, rMin, rMax, valid, lo, hi, sval, FromInt, u64, two64; cbn; repeat split; try lia.
+Qed.
+
+Lemma base_range_nonempty : forall k b, int_bounds k = Some b -> base_range k <> [].
+Proof. intros k [a b] H. unfold base_range. rewrite H. discriminate. Qed.
+
+Lemma apply_ranges_derived : forall y0 texts y r,
+  okRs 0 y0 -> WF y0 -> y0 <> [] ->
+  derived 0 false y0 y -> apply_ranges y texts = Ok r -> derived 0 false y0 r.
+Proof.
+  intros y0. induction texts as [|s rest IH]; intros y r O W N D H.
+  - cbn in H. inversion H; subst. exact D.
+  - cbn [apply_ranges] in H. apply bind_ok in H. destruct H as [yr [H1 H]].
+    apply (IH (if YangRange_Equal yr y then y else yr) r O W N); [|exact H].
+    destruct (YangRange_Equal yr y); [exact D | eapply derived_step; eauto].
+Qed.
+
+Lemma apply_ranges_no_panic : forall y0 texts y,
+  okRs 0 y0 -> WF y0 -> y0 <> [] -> derived 0 false y0 y -> apply_ranges y texts <> Panic.
+Proof.
+  intros y0. induction texts as [|s rest IH]; intros y O W N D; [discriminate|].
+  cbn [apply_ranges].
+  destruct (chain_narrows 0 false y0 y O W N (fun _ => eq_refl) D) as [Wy [Oy _]].
+  pose proof (parseChildRanges_spec 0 false y (codes_of_str s) Oy Wy (fun _ => eq_refl)) as P.
+  destruct (parseChildRanges y (codes_of_str s) false 0) as [yr| | |] eqn:E; cbn [obind]; try discriminate;
+    [|contradiction].
+  apply (IH _ O W N). destruct (YangRange_Equal yr y); [exact D | eapply derived_step; eauto].
+Qed.
+
+(* the resolved range of an integer type is what C10's parseChildRanges yields when it is applied, link by link from
+   the base outward, to the range statements of the chain T2 speaks of; it is a well-formed non-empty presentation
+   of a subset of the built-in range (and, step by step, of the parent's range: C10_parseChildRanges) *)
+Theorem range_of_spec : forall S st t r,
+  range_of S st t = Ok (Some r) ->
+  exists tds k,
+    lchain S st t tds k /\ int_bounds k <> None /\
+    apply_ranges (base_range k) (chain_range_texts t (map snd tds)) = Ok r /\
+    derived 0 false (base_range k) r /\
+    WF r /\ r <> [] /\ subset (den r) (den (base_range k)).
+Proof.
+  intros S st t r H. unfold range_of in H.
+  destruct (chain_of S (resolve_fuel S) st t) as [[tds k]|] eqn:Ec; [|discriminate].
+  destruct (int_bounds k) as [b|] eqn:Eb; [|discriminate].
+  apply bind_ok in H. destruct H as [r' [H1 H]]. inversion H; subst r'.
+  destruct (base_range_ok k) as [O W]. pose proof (base_range_nonempty k b Eb) as N.
+  pose proof (apply_ranges_derived (base_range k) _ (base_range k) r O W N (derived_base _ _ _) H1) as D.
+  destruct (chain_narrows 0 false (base_range k) r O W N (fun _ => eq_refl) D) as [Wr [_ [Nr Sr]]].
+  exists tds, k. split; [eapply chain_of_sound; exact Ec|]. split; [congruence|]. auto.
+Qed.
+
+Theorem range_of_no_panic : forall S st t, range_of S st t <> Panic.
+Proof.
+  intros S st t. unfold range_of.
+  destruct (chain_of S (resolve_fuel S) st t) as [[tds k]|]; [|discriminate].
+  destruct (int_bounds k) as [b|] eqn:Eb; [|discriminate].
+  destruct (base_range_ok k) as [O W]. pose proof (base_range_nonempty k b Eb) as N.
+  pose proof (apply_ranges_no_panic (base_range k) (chain_range_texts t (map snd tds)) (base_range k) O W N
+                (derived_base _ _ _)) as P.
+  destruct (apply_ranges (base_range k) (chain_range_texts t (map snd tds))); cbn [obind]; congruence.
+Qed.
+
+(* a reference that has a chain to an integer kind has a resolved range or a range error *)
+Theorem range_of_defined : forall S st t tds k,
+  lchain S st t tds k -> int_bounds k <> None ->
+  range_of S st t = (r <- apply_ranges (base_range k) (chain_range_texts t (map snd tds)) ;; Ok (Some r)).
+Proof.
+  intros S st t tds k Hc Hk. unfold range_of. rewrite (chain_of_complete S st t tds k Hc).
+  destruct (int_bounds k); [reflexivity | congruence].
+Qed.
+
+(* the opaque range text of the resolved type (T2: nearest range statement) is the last text applied here *)
+Lemma filter_some_app : forall {A} (a b : list (option A)), filter_some (a ++ b) = filter_some a ++ filter_some b.
+Proof. intros A a b. induction a as [|[x|] a IH]; cbn; [reflexivity | rewrite IH; reflexivity | exact IH]. Qed.
+
+Lemma filter_some_rev : forall {A} (l : list (option A)), filter_some (rev l) = rev (filter_some l).
+Proof.
+  intros A. induction l as [|[x|] l IH]; cbn [rev filter_some]; [reflexivity | |];
+    rewrite filter_some_app, IH; cbn [filter_some]; [reflexivity | rewrite app_nil_r; reflexivity].
+Qed.
+
+Lemma first_some_hd : forall {A} (l : list (option A)), first_some l = hd_error (filter_some l).
+Proof. intros A. induction l as [|[x|] l IH]; cbn; [reflexivity | reflexivity | exact IH]. Qed.
+
+Theorem range_text_is_last : forall k t tds mss,
+  y_range (chain_type k t tds mss) = hd_error (rev (chain_range_texts t tds)).
+Proof.
+  intros. unfold chain_type, chain_range_texts. cbn [y_range].
+  rewrite filter_some_rev, rev_involutive. apply first_some_hd.
 Qed.
